@@ -227,7 +227,7 @@ func (s *Solver) Check(conds []*Term, wantModel bool, vars []*Term, ufApps []*Te
 		s.Queries++
 		if profQueries && d > 200*time.Millisecond {
 			fmt.Fprintf(os.Stderr, "slow query %.0fms conds=%d model=%v defs=%d res=%v\n", d.Seconds()*1000, len(conds), wantModel, s.nDefs, res)
-			if d > 900*time.Millisecond {
+			if d > 200*time.Millisecond {
 				for _, c := range conds {
 					fmt.Fprintf(os.Stderr, "    %s\n", c.String())
 				}
